@@ -1,0 +1,22 @@
+//go:build verif
+
+package discovery
+
+import (
+	"context"
+	"errors"
+)
+
+// VerifClientRefresh runs one synchronous pass of what the client's background routine does on every tick
+// (production: wall-clock ticker in Module.update): load changes from the Discovery Servers of all services,
+// validate what is not validated yet, remove revoked presentations. It returns the errors of the pass.
+func VerifClientRefresh(m *Module) error {
+	err := m.clientUpdater.update(context.Background())
+	err = errors.Join(err, m.registrationManager.validate())
+	return errors.Join(err, m.registrationManager.removeRevoked())
+}
+
+// VerifClientUpdate runs only the updater part of the pass (no background validation), for one service.
+func VerifClientUpdate(m *Module, serviceID string) error {
+	return m.clientUpdater.updateService(context.Background(), m.allDefinitions[serviceID])
+}
